@@ -22,7 +22,7 @@ REQUIRED = ["Sqfs.C07.resolve_links_terminates", "Sqfs.C07.resolve_ok_targets", 
             "Sqfs.C07.parse_uint_in_bounds_nul", "Sqfs.C07.parse_int_in_bounds", "Sqfs.C07.hex_decode_bounds",
             "Sqfs.C07.base64_decode_bounds", "Sqfs.C07.split_line_total", "Sqfs.C07.read_pax_header_total",
             "Sqfs.C07.sparse_map_new_bounds", "Sqfs.C07.sparse_map_old_bounds", "Sqfs.C07.decode_filename_bounds",
-            "Sqfs.C07.xattr_decode_bounds"]
+            "Sqfs.C07.xattr_decode_bounds", "Sqfs.C07.read_header_total", "Sqfs.C07.read_lines_chunking_independent"]
 WITNESS_MODULE = "Sqfs.Witness.C07"
 
 KEY_D12 = "D12:resolve_link:cycle-not-through-start"
@@ -46,6 +46,22 @@ def jobs(ctx):
 # ---------------------------------------------------------------------------------------------------------
 # generic: run a line script through harness and model in parallel chunks
 
+def infra(cond, what):
+    """the check's own machinery misbehaved: never a pass"""
+    if not cond:
+        raise vlib.CheckFailure(what)
+
+
+def model_lines(ctx, lines, what, timeout=3600):
+    """the native model on a script; one answer per line or the check cannot go on"""
+    infra(len(lines) > 0, "%s: empty script for the model (generator produced nothing)" % what)
+    out = ctx.driver(["c07"], "\n".join(lines) + "\n", timeout=timeout)
+    infra(len(out) == len(lines), "%s: model driver answered %d lines for %d operations" % (what, len(out), len(lines)))
+    bad = [(l, o) for l, o in zip(lines, out) if o == "bad-op"]
+    infra(not bad, "%s: model driver does not understand %d operation(s), first: %s" % (what, len(bad), bad[0][0][:200] if bad else ""))
+    return out
+
+
 def run_harness(ctx, exe, lines, timeout=900):
     """returns (outputs, crash) ; crash = (index, rc, stderr) when the harness died before answering every line"""
     text = "\n".join(lines) + "\n"
@@ -59,18 +75,20 @@ def run_harness(ctx, exe, lines, timeout=900):
     return out, None
 
 
+MAX_CRASHES = 40
+
+
 def run_chunks(ctx, exe, model_args, lines, nchunks, want_model=True):
     """split `lines` into chunks; run harness and model on each chunk concurrently.  Returns (impl, model, crashes)
     where crashed chunks are re-run line by line to isolate the offending input."""
-    if not lines:
-        return [], [], []
+    infra(len(lines) > 0, "empty script for %s (generator produced nothing)" % exe)
     n = max(1, min(nchunks, len(lines) // 50 or 1))
     size = (len(lines) + n - 1) // n
     chunks = [lines[i:i + size] for i in range(0, len(lines), size)]
 
     def one(ch):
         impl, crash = run_harness(ctx, exe, ch)
-        model = ctx.driver(model_args, "\n".join(ch) + "\n") if want_model else []
+        model = model_lines(ctx, ch, str(exe)) if want_model else []
         return impl, model, crash
 
     with ThreadPoolExecutor(max_workers=n) as ex:
@@ -78,20 +96,32 @@ def run_chunks(ctx, exe, model_args, lines, nchunks, want_model=True):
     impl, model, crashes = [], [], []
     for ch, (i, m, crash) in zip(chunks, res):
         if crash:
-            k = crash[0] if isinstance(crash[0], int) else 0
-            bad = ch[min(k, len(ch) - 1)]
-            crashes.append((bad, crash[1], crash[2]))
-            # answers for the rest of the chunk: run the remaining lines one harness each (rare path)
-            i = i[:k] + ["CRASH rc=%s" % crash[1]]
-            for l in ch[k + 1:]:
-                o, c = run_harness(ctx, exe, [l], timeout=60)
-                if c:
-                    crashes.append((l, c[1], c[2]))
-                    i.append("CRASH rc=%s" % c[1])
-                else:
-                    i.append(o[0])
+            # isolate: the line the harness died on is the culprit; the rest of the chunk goes through a fresh harness in
+            # one batch (again and again if it dies again, at most MAX_CRASHES times — then the rest is marked not run)
+            done, rest, cur, cr = [], ch, i, crash
+            for _ in range(MAX_CRASHES):
+                k = cr[0] if isinstance(cr[0], int) else 0
+                k = min(k, len(rest) - 1)
+                crashes.append((rest[k], cr[1], cr[2]))
+                done += cur[:k] + ["CRASH rc=%s" % cr[1]]
+                rest = rest[k + 1:]
+                if not rest:
+                    break
+                cur, cr = run_harness(ctx, exe, rest)
+                if not cr:
+                    done += cur
+                    rest = []
+                    break
+            done += ["CRASH not-run"] * len(rest)
+            i = done
+        infra(len(i) == len(ch), "harness %s: %d answers for a chunk of %d operations" % (exe, len(i), len(ch)))
         impl += i
         model += m
+    infra(len(impl) == len(lines) and (not want_model or len(model) == len(lines)),
+          "harness %s / model: %d / %d answers for %d operations" % (exe, len(impl), len(model), len(lines)))
+    nbad = sum(1 for a in impl if a == "bad-op")
+    infra(nbad == 0, "harness %s does not understand %d operation(s), first: %s" % (
+        exe, nbad, next((l for l, a in zip(lines, impl) if a == "bad-op"), "")[:200]))
     return impl, model, crashes
 
 
@@ -103,7 +133,67 @@ HL_SOURCES = ["h_c07_hl.c", "lib/fstree/src/fstree.c", "lib/fstree/src/hardlink.
 
 
 def hl_line(ents):
-    return "hl " + " ".join("%s:%s:%s" % (k, tok(n), tok(t)) for k, n, t in ents)
+    """entries (kind, name, target); kind 'c' = set-up step `link_count = target` (target: an int)"""
+    return "hl " + " ".join(("c:%s:%d" % (tok(n), t)) if k == "c" else ("%s:%s:%s" % (k, tok(n), tok(t))) for k, n, t in ents)
+
+
+def max_dir_nesting():
+    """SQFS_MAX_DIR_NESTING of the working tree (the generated Lean constant the model uses)"""
+    m = re.search(r"def sqfsMaxDirNesting : Nat := (\d+)", (vlib.LEAN / "Sqfs" / "Generated" / "Consts.lean").read_text())
+    infra(m is not None, "Sqfs/Generated/Consts.lean has no sqfsMaxDirNesting")
+    return int(m.group(1))
+
+
+def hl_saturated(maxn):
+    """the `link_count == 0xFFFFFFFF` guards of resolve_link and mknode: every graph over <= maxn names (one insertion
+    order) with the link count of one non-link node (or of the root) preset to 2^32-1 / 2^32-2 right after its creation"""
+    names = [b"a", b"b", b"c"]
+    out = []
+    for n in range(1, maxn + 1):
+        ns = names[:n]
+        choices = [("f", b""), ("d", b"")] + [("l", t) for t in ns] + [("l", b"")]
+        for combo in itertools.product(choices, repeat=n):
+            if not any(k == "l" for k, _ in combo):
+                continue
+            ents = [(k, ns[i], t) for i, (k, t) in enumerate(combo)]
+            for v in (0xFFFFFFFF, 0xFFFFFFFE):
+                out.append(hl_line([("c", b"", v)] + ents))                      # the root: mknode's guard on the parent
+                for i, (k, nm, _) in enumerate(ents):
+                    if k != "l":
+                        out.append(hl_line(ents[:i + 1] + [("c", nm, v)] + ents[i + 1:]))
+    # a saturated directory refuses a child (mknode), an unsaturated one takes exactly one more
+    for v in (0xFFFFFFFF, 0xFFFFFFFE):
+        out.append(hl_line([("d", b"a", b""), ("c", b"a", v), ("f", b"a/x", b""), ("f", b"a/y", b"")]))
+        out.append(hl_line([("d", b"a", b""), ("c", b"a", v), ("l", b"a/x", b"a/y"), ("f", b"a/y", b"")]))
+        out.append(hl_line([("f", b"t", b""), ("c", b"t", v), ("l", b"l1", b"t"), ("l", b"l2", b"l1"), ("l", b"l3", b"t")]))
+    out.append(hl_line([("c", b"nowhere", 5), ("f", b"a", b"")]))
+    out.append(hl_line([("f", b"a", b""), ("c", b"a/b", 5)]))
+    return out
+
+
+def hl_deep(rng, limit, count):
+    """directories nested around SQFS_MAX_DIR_NESTING (mknode refuses deeper ones with ENAMETOOLONG; a non-directory one
+    level below the deepest directory is fine), created implicitly or explicitly, with hard links into / out of the chain"""
+    def deep(k, leaf=b""):
+        return b"/".join([b"a"] * k) + leaf
+    out = []
+    for k in (limit - 1, limit, limit + 1, limit + 2):
+        out.append(hl_line([("d", deep(k), b"")]))
+        out.append(hl_line([("f", deep(k), b"")]))
+        out.append(hl_line([("l", deep(k), b"b"), ("f", b"b", b"")]))
+    out.append(hl_line([("d", deep(limit), b""), ("f", deep(limit, b"/f"), b""), ("l", b"x", deep(limit, b"/f"))]))
+    out.append(hl_line([("d", deep(limit), b""), ("d", deep(limit, b"/d"), b"")]))
+    out.append(hl_line([("f", deep(limit + 1), b""), ("l", b"y", deep(limit)), ("l", b"z", deep(limit + 1))]))
+    for _ in range(count):
+        k = limit + rng.choice([-2, -1, 0, 0, 1, 1, 2, 7])
+        kind = rng.choice("dfl")
+        ents = [(kind, deep(k), b"t" if kind == "l" else b""), ("f", b"t", b"")]
+        if rng.random() < 0.5:
+            ents.append(("l", b"q", deep(rng.choice([k - 1, k, limit, limit + 1]))))
+        if rng.random() < 0.3:
+            ents.insert(0, ("d", deep(rng.choice([limit - 1, limit])), b""))
+        out.append(hl_line(ents))
+    return out
 
 
 def hl_exhaustive(maxn, all_orders_upto):
@@ -214,21 +304,32 @@ def check_hardlinks(ctx, stats):
     if cdir.exists():
         for p in sorted(cdir.glob("hl*.txt")):
             corpus += [l for l in p.read_text().splitlines() if l.startswith("hl ")]
+    limit = max_dir_nesting()
     if ctx.quick():
         lines = hl_exhaustive(4, 3)
         rnd = hl_random(ctx.rng, 1500, 40) + hl_random(ctx.rng, 60, 300)
+        sat = hl_saturated(2)
+        deep = hl_deep(ctx.rng, limit, 2)
     else:
         lines = hl_exhaustive(4, 4)
         rnd = hl_random(ctx.rng, 20000, 40) + hl_random(ctx.rng, 400, 400)
+        sat = hl_saturated(3)
+        deep = hl_deep(ctx.rng, limit, 30)
     nexh = len(lines)
-    lines = corpus + lines + rnd
-    ctx.log("hard links: %d graphs (%d exhaustive)" % (len(lines), nexh))
+    infra(nexh > 1000 and len(rnd) > 100 and len(sat) > 20 and len(deep) >= 15, "hard-link generators produced too little")
+    lines = corpus + lines + rnd + sat
+    ctx.log("hard links: %d graphs (%d exhaustive, %d with a saturated link count) + %d around the nesting limit %d" % (
+        len(lines), nexh, len(sat), len(deep), limit))
     impl, model, crashes = run_chunks(ctx, exe, ["c07"], lines, jobs(ctx))
+    # the deep chains cost the list-based model ~0.5 s each: their own, evenly split script
+    di, dm, dc = run_chunks(ctx, exe, ["c07"], deep, min(jobs(ctx), 4) if ctx.quick() else jobs(ctx))
+    lines, impl, model, crashes = lines + deep, impl + di, model + dm, crashes + dc
     for bad, rc, err in crashes[:5]:
         ctx.violation("hl-crash:" + vlib.sha(bad)[:12], "fstree_add_generic/fstree_resolve_hard_links aborted (rc=%s): %s" % (rc, err[-600:]),
                       {"unit": "hl", "line": bad, "stderr": err})
     hist = {}
     spins, mism = [], []
+    infra(len(lines) == len(impl) == len(model), "hard links: %d lines, %d / %d answers" % (len(lines), len(impl), len(model)))
     for l, a, b in zip(lines, impl, model):
         cls = b.split()[0] + ((" " + b.split()[-1]) if b.startswith(("err", "adderr")) else "")
         hist[cls] = hist.get(cls, 0) + 1
@@ -240,7 +341,7 @@ def check_hardlinks(ctx, stats):
             mism.append((l, a, b))
     if spins:
         # does the model of the *shipped* loop predict non-termination for these graphs?
-        cur = ctx.driver(["c07"], "\n".join("hlcur 5000 " + l[3:] for l in spins) + "\n")
+        cur = model_lines(ctx, ["hlcur 5000 " + l[3:] for l in spins], "hlcur")
         shown = 0
         for l, c in zip(spins, cur):
             if c == "spin":
@@ -251,8 +352,31 @@ def check_hardlinks(ctx, stats):
                 shown += 1
                 ctx.violation("hl-timeout:" + vlib.sha(l)[:12], "fstree_resolve_hard_links did not return within 10 ms CPU on: %s" % l,
                               {"unit": "hl", "line": l, "impl": "timeout", "model_shipped": c})
+    # the specification as a monitor on the *real* code's answers, for every graph (not only where model and code differ):
+    # `hlspec` is the executable classifier of Spec/HardLink.lean (`specClass_sound`); graphs with a preset link count are
+    # left to the model comparison (the classifier does not know the counts)
+    plain = [(l, a) for l, a in zip(lines, impl) if " c:" not in l and not a.startswith("CRASH") and a != "timeout"]
+    infra(len(plain) > 1000, "hard links: nothing to evaluate the specification on")
+    nchunk = jobs(ctx)
+    size = (len(plain) + nchunk - 1) // nchunk
+    with ThreadPoolExecutor(max_workers=nchunk) as ex:
+        parts = list(ex.map(lambda k: model_lines(ctx, ["hlspec " + l[3:] for l, _ in plain[k:k + size]], "hlspec"), range(0, len(plain), size)))
+    allspecs = [x for p in parts for x in p]
+    infra(len(allspecs) == len(plain), "hlspec: %d verdicts for %d graphs" % (len(allspecs), len(plain)))
+    spec_bad, spec_judged = [], 0
+    for (l, a), sp in zip(plain, allspecs):
+        if sp.startswith("spec"):
+            spec_judged += 1
+        bad = hl_spec_verdict(l, a, sp)
+        if bad:
+            spec_bad.append((l, a, sp, bad))
+    infra(spec_judged > 1000, "hlspec judged only %d graphs" % spec_judged)
+    for l, a, sp, bad in spec_bad[:5]:
+        ctx.violation("hl-spec:" + vlib.sha(l)[:12], "hard-link resolution violates the specification (%s): real code answers %r, spec %r on %s" % (
+            "; ".join(bad), a, sp, l), {"unit": "hl", "line": l, "impl": a, "spec": sp, "clauses": bad})
+    mism = [m for m in mism if m[0] not in {x[0] for x in spec_bad[:5]}]
     if mism:
-        specs = ctx.driver(["c07"], "\n".join("hlspec " + l[3:] for l, _, _ in mism[:200]) + "\n")
+        specs = model_lines(ctx, ["hlspec " + l[3:] for l, _, _ in mism[:200]], "hlspec")
         shown = 0
         for (l, a, b), sp in zip(mism[:200], specs):
             bad = hl_spec_verdict(l, a, sp)
@@ -267,8 +391,12 @@ def check_hardlinks(ctx, stats):
                 ctx.violation("hl-corr:" + vlib.sha(l)[:12], "hard-link resolution: real code answers %r, model %r on %s (no clause of the "
                               "specification is violated by the answer)" % (a, b, l),
                               {"unit": "hl", "line": l, "impl": a, "model": b, "spec": sp}, found_input=False)
+    infra(any(k.endswith("ENAMETOOLONG") for k in hist) and any(k == "err EMLINK" for k in hist) and any(k == "adderr EMLINK" for k in hist),
+          "hard links: no generated input reached the nesting limit / the saturated link count (%s)" % sorted(hist))
     stats["hl"] = {"evaluations": len(lines), "exhaustive_graphs_le4_names": nexh, "random": len(rnd), "corpus": len(corpus),
+                   "saturated_link_count": len(sat), "around_nesting_limit": len(deep), "nesting_limit": limit,
                    "model_result_histogram": hist, "impl_timeouts": len(spins), "mismatches": len(mism),
+                   "graphs_judged_by_the_specification": spec_judged, "specification_violations": len(spec_bad),
                    "samples": [{"line": lines[i], "impl": impl[i], "model": model[i]} for i in (0, nexh // 2, len(lines) - 1)]}
     return len(lines), sum(v for k, v in hist.items() if not k.startswith("ok")), len(spins) + len(mism)
 
@@ -290,13 +418,13 @@ def pax_rec(k, v, lenfield=None):
     return (str(n).encode() if lenfield is None else lenfield) + b" " + body
 
 
-def gen_parser_lines(ctx, numfx, paxfx):
+def gen_parser_lines(ctx):
     rng, q = ctx.rng, ctx.quick()
     L = []
     # read_number: all short fields over the alphabet named in the property + typical widths
     A = [0x30, 0x37, 0x38, 0x20, 0x00, 0x80, 0xff, 0x31]
     for b in prod(A, 4 if q else 5, 1):
-        L.append("num %d %s %d" % (numfx, tok(b), len(b)))
+        L.append("num %s %d" % (tok(b), len(b)))
     for _ in range(4000 if q else 40000):
         w = rng.choice([8, 12, 12, 1, 2, 7, 9, 16, 21, 22, 23, 24])     # > 21 octal digits reach the overflow guard
         r = rng.random()
@@ -309,7 +437,17 @@ def gen_parser_lines(ctx, numfx, paxfx):
         else:
             b = bytes(rng.choice(A + [0x39, 0x09, 0x0a]) for _ in range(w))
         extra = bytes(rng.randrange(256) for _ in range(rng.choice([0, 0, 3])))
-        L.append("num %d %s %d" % (numfx, tok(b + extra), w))
+        L.append("num %s %d" % (tok(b + extra), w))
+    # base-256 numbers around the overflow / sign guards of read_binary (the 1.2.0 guard let the first kind wrap)
+    for _ in range(1500 if q else 15000):
+        w = rng.choice([8, 9, 9, 10, 12, 12, 16])
+        neg = rng.random() < 0.5
+        body = bytearray((0xff if neg else 0x00) for _ in range(w - 1))
+        for _ in range(rng.choice([0, 1, 1, 2, 3])):
+            body[rng.randrange(w - 1)] = rng.choice([0x00, 0xff, 0x7f, 0x80, 0x01, 0xfe, rng.randrange(256)])
+        first = 0xff if neg else rng.choice([0x80, 0x80, 0x81, 0xc0, 0xbf])
+        L.append("num %s %d" % (tok(bytes([first]) + bytes(body)), w))
+    L.append("num %s 9" % PARSE_PROBE_NUM)
     # parse_uint / parse_int
     for sbytes in prod([0x30, 0x39, 0x2d, 0x31, 0x20, 0x78, 0x38], 4 if q else 5):
         L.append("pint -1 1 %s" % tok(sbytes))
@@ -374,7 +512,17 @@ def gen_parser_lines(ctx, numfx, paxfx):
                 recs.append(bytes(rng.choice(b"0123456789 =\nab\0") for _ in range(rng.randrange(1, 20))))
         rec = b"".join(recs)
         if rec:
-            L.append("pax %d %s" % (paxfx, tok(rec)))
+            L.append("pax %s" % tok(rec))
+    # xattr keys: every short string over the escape alphabet behind both prefixes (xattr_key_decode / urldecode)
+    for kb in prod([0x25, 0x32, 0x35, 0x33, 0x44, 0x64, 0x61], 4 if q else 5, 1):
+        L.append("pax %s" % tok(pax_rec(b"SCHILY.xattr." + kb, b"v")))
+        if len(kb) <= 3:
+            L.append("pax %s" % tok(pax_rec(b"LIBARCHIVE.xattr." + kb, b"QUJD")))
+    # GNU.sparse.* records in every order of three (incl. numbytes, map, numbytes: the use after free of 1.2.0)
+    sp = [(b"GNU.sparse.numbytes", b"1"), (b"GNU.sparse.numbytes", b"2"), (b"GNU.sparse.map", b"0,1"), (b"GNU.sparse.map", b"0,1,2,3"),
+          (b"GNU.sparse.offset", b"7"), (b"GNU.sparse.map", b"x"), (b"GNU.sparse.numbytes", b"")]
+    for combo in itertools.product(sp, repeat=3):
+        L.append("pax %s" % tok(b"".join(pax_rec(k, v) for k, v in combo)))
     # GNU 1.0 sparse maps: numbers separated by newlines in 512-byte blocks, then the data
     for _ in range(1500 if q else 20000):
         cnt = rng.choice([0, 1, 1, 2, 3, 10, 60, 100, 70000])
@@ -411,66 +559,235 @@ def gen_parser_lines(ctx, numfx, paxfx):
             stream += bytes(blk)
         if rng.random() < 0.15:
             stream = stream[:rng.randrange(len(stream) + 1)]
-        L.append("spold %d %s %s" % (numfx, tok(bytes(h)), tok(stream)))
+        L.append("spold %s %s" % (tok(bytes(h)), tok(stream)))
+    L += gen_getline_lines(ctx)
+    L += gen_readheader_lines(ctx)
     return L
 
 
-def norm(ans):
-    """answers whose failure code the real function does not expose are compared by status only"""
-    return ans
+def gen_readheader_lines(ctx):
+    """whole streams for `read_header` (op rh: every member of the stream): the reference archives of every dialect, their
+    structure-aware mutations and truncations, extension records around TAR_MAX_*_LEN with all data present, chains of
+    L / K / x / g records, zero blocks and short tails, old and new GNU sparse maps, names nested beyond the limit"""
+    rng, q = ctx.rng, ctx.quick()
+    seeds = [(n, d) for n, d in tar_seeds() if len(d) <= 40960]
+    infra(len(seeds) >= 20, "only %d small reference archives for the read_header generator" % len(seeds))
+    L = []
+    def add(data):
+        L.append("rh %s" % tok(data))
+    for n, d in seeds:
+        add(d)
+    for _ in range(2500 if q else 30000):
+        n, d = rng.choice(seeds)
+        m = TL.mutate_tar(rng, d)
+        for _ in range(rng.choice([0, 0, 1, 2])):
+            m = TL.mutate_tar(rng, m)
+        if rng.random() < 0.15 and m:
+            m = m[:rng.randrange(len(m))]                                      # cut anywhere: short header, short record, short padding
+        add(m[:24576])
+    limits = tar_limits()
+    for kind in "LKx":                                                             # exactly at, one below, one above each limit
+        for delta in (-1, 0, 1):
+            add(TL.tar_size_gate(rng, limits, kind, delta)[0])
+    for _ in range(40 if q else 400):
+        add(TL.tar_size_gate(rng, limits)[0])
+    for _ in range(60 if q else 600):
+        add(TL.tar_sparse_inconsistent(rng)[0][:16384])
+    # chains of extension records in front of one member
+    H = TL.mk_header
+    def member():
+        t = rng.choice([b"0", b"0", b"\0", b"1", b"2", b"3", b"4", b"5", b"6", b"7", b"S", b"V", b"x" if rng.random() < 0.05 else b"0"])
+        magic = rng.choice([b"ustar\x0000", b"ustar\x0000", b"ustar  \0", b"\0" * 8, b"ustar\x0001", b"USTAR\x0000"])
+        h = bytearray(H(rng.choice([b"m", b"dir/m", b"a/../b", b"", b"x" * 100]), rng.choice([0, 0, 3, 512, 600]), t, rng.choice([b"", b"tgt", b"t" * 100]), magic))
+        if rng.random() < 0.3:
+            p = rng.choice([b"pre", b"p" * 155, b"/abs", b"a/b/"])
+            h[345:345 + len(p)] = p
+        if rng.random() < 0.3:
+            off, ln = rng.choice([(100, 8), (108, 8), (116, 8), (124, 12), (136, 12), (329, 8), (337, 8), (148, 8)])
+            h[off:off + ln] = TL.num_variants(rng, ln, h[off:off + ln])[:ln].ljust(ln, b"\0")
+        if rng.random() < 0.85:
+            TL.fix_checksum(h)
+        size = TL.parse_size(h) or 0
+        return bytes(h) + bytes(rng.randrange(256) for _ in range(min(size, 1024))).ljust(min((size + 511) // 512 * 512, 1024), b"\0")
+    def ext():
+        k = rng.choice("LKxxg")
+        if k == "L":
+            p = rng.choice([b"long/name", b"n" * 300, b"a/" * 200 + b"z", b"", b"../up", b"with\0nul"])
+            return TL.ext_record(b"L", p + b"\0", rng.choice([None, None, len(p), len(p) + 1 + 600, 0, 65537]))
+        if k == "K":
+            p = rng.choice([b"target", b"t" * 5000, b"", b"x/../y"])
+            return TL.ext_record(b"K", p + b"\0", rng.choice([None, None, 0, len(p) + 2000]))
+        if k == "g":
+            p = TL.pax_rec(b"comment", b"global")
+            big = bytes([0x80]) + (rng.choice([2**64 - 1, 2**64 - 511, 2**63, 1 << 40])).to_bytes(11, "big")
+            h = bytearray(H(b"pax_global", len(p), b"g"))
+            if rng.random() < 0.3:
+                h[124:136] = big
+                TL.fix_checksum(h)
+            return bytes(h) + p.ljust(512, b"\0")
+        recs = b"".join(TL.pax_rec(rng.choice(TL.PAXKEYS), rng.choice([b"1", b"0", b"abc", b"0,512", b"18446744073709551615", b"-5", b"QUJD", b"a/b", b""]))
+                        for _ in range(rng.choice([1, 1, 2, 4])))
+        return TL.ext_record(b"x", recs, rng.choice([None, None, None, len(recs) - 1, len(recs) + 1, 0]))
+    for _ in range(1200 if q else 15000):
+        parts = [ext() for _ in range(rng.choice([0, 1, 1, 2, 3]))] + [member()]
+        if rng.random() < 0.3:
+            parts.insert(rng.randrange(len(parts) + 1), b"\0" * 512 * rng.choice([1, 1, 2]))
+        if rng.random() < 0.5:
+            parts += [member(), b"\0" * 1024]
+        data = b"".join(parts)
+        if rng.random() < 0.1:
+            data = data[:rng.randrange(len(data) + 1)]
+        if rng.random() < 0.1:
+            data += bytes(rng.choice([0, 0, 1]) for _ in range(rng.randrange(1, 511)))          # a tail shorter than a header
+        add(data[:32768])
+    # GNU 1.0 sparse members: PAX major/minor, then the map in the data area
+    for _ in range(150 if q else 2000):
+        cnt = rng.choice([1, 2, 3, 40, 100])
+        nums = [rng.choice([0, 512, 1024, 4096, 10**6, rng.randrange(10**9)]) for _ in range(2 * cnt)]
+        txt = b"%d\n" % cnt + b"".join(b"%d\n" % x for x in nums)
+        if rng.random() < 0.2:
+            p = rng.randrange(len(txt)); txt = txt[:p] + bytes([rng.choice(b"x\n 0\0")]) + txt[p + 1:]
+        mapblk = txt + b"\0" * ((-len(txt)) % 512)
+        recs = TL.pax_rec(b"GNU.sparse.major", b"1") + TL.pax_rec(b"GNU.sparse.minor", b"0") + \
+            TL.pax_rec(b"GNU.sparse.name", b"sp") + TL.pax_rec(b"GNU.sparse.realsize", b"%d" % rng.choice([0, 4096, 10**7]))
+        body = rng.choice([0, 512, 4096])
+        size = rng.choice([len(mapblk) + body, len(mapblk), 0, 511, len(mapblk) + body + 512])
+        add((TL.ext_record(b"x", recs) + H(b"GNUSparseFile.0/sp", size) + mapblk + b"D" * body + b"\0" * 1024)[:20480])
+    limit = max_dir_nesting()
+    for n in (limit, limit + 1, 30000):
+        add(TL.tar_deep(rng, n, "d"))
+    return L
+
+
+def istream_bufsz():
+    """BUFSZ of the buffered file istream of the working tree (the `gl` model is run with it; by
+    `read_lines_chunking_independent` its answers do not depend on the value)"""
+    m = re.search(r"#define\s+BUFSZ\s+\(?\s*(\d+)\s*\)?", (vlib.REPO / "lib" / "sqfs" / "src" / "io" / "istream.c").read_text())
+    infra(m is not None, "lib/sqfs/src/io/istream.c no longer defines BUFSZ as a literal: cannot place lines at the buffer boundary")
+    return int(m.group(1))
+
+
+def gl_content(parts):
+    """content tokens of the `gl` op: (bytes) literal or (count, byte) run"""
+    toks = []
+    for p in parts:
+        if isinstance(p, tuple):
+            if p[0] > 0:
+                toks.append("r%dx%02x" % (p[0], p[1]))
+        elif p:
+            toks.append("h" + p.hex())
+    return " ".join(toks)
+
+
+def gen_getline_lines(ctx):
+    """text inputs larger than the istream buffer: lines straddling the boundary, longer than one / two buffers, CR and
+    LF on either side of it, blanks to trim around it, empty lines to skip there, missing final newline"""
+    rng, q = ctx.rng, ctx.quick()
+    B = istream_bufsz()
+    L = []
+    FLAGS = [0, 1, 2, 3, 4, 5, 6, 7]
+    def add(flags, parts):
+        L.append("gl %d %d %s" % (B, flags, gl_content(parts)))
+    # small inputs, every flag set: all strings over {a, space, CR, LF, NUL} up to length 4 (5 in thorough)
+    for fl in FLAGS:
+        for b in prod([0x61, 0x20, 0x0d, 0x0a, 0x00], 4 if q else 5):
+            add(fl, [b])
+    # the byte before / at / after the boundary is each of: letter, blank, CR, LF; a few lines on either side
+    edge = [b"a", b" ", b"\r", b"\n", b"\t", b"#", b"\0"]
+    for fl in (5, 7, 0):
+        for k in (-2, -1, 0, 1):
+            for x in edge:
+                for y in edge:
+                    add(fl, [b"dir /d 0755 0 0\n", (B - 16 + k - 1, 0x62), x, y, b"c d\r\n\n  tail"])
+    for _ in range(60 if q else 1200):
+        fl = rng.choice([5, 5, 7, 7, 0, 1, 2, 3, 4, 6])
+        parts = []
+        pos = 0
+        target = rng.choice([B, B, 2 * B, B]) + rng.randrange(-3, 4)
+        # head: a few ordinary lines, then one filler line that ends `gap` bytes before the target offset
+        for _ in range(rng.randrange(0, 4)):
+            l = bytes(rng.choice(b"ab \t#\"\\") for _ in range(rng.randrange(0, 12))) + rng.choice([b"\n", b"\r\n", b"\n\n"])
+            parts.append(l); pos += len(l)
+        gap = rng.choice([0, 0, 1, 2, 3, 10, 100])
+        fill = target - pos - gap - 1
+        if fill > 0:
+            parts += [(fill, rng.choice([0x61, 0x20, 0x23])), b"\n"]
+            pos += fill + 1
+        # the line that meets the boundary
+        kind = rng.random()
+        if kind < 0.3:
+            body = bytes(rng.choice(b"xy \r\t") for _ in range(rng.randrange(1, 8)))
+        elif kind < 0.5:
+            body = b" " * rng.randrange(0, 5) + b"z" * rng.randrange(0, 5) + b" " * rng.randrange(0, 5) + rng.choice([b"", b"\r", b"\r\r"])
+        elif kind < 0.7:
+            parts.append((rng.choice([B - 1, B, B + 1, 2 * B + 5, 3 * B]), rng.choice([0x71, 0x20])))      # longer than the buffer
+            body = rng.choice([b"", b"\r", b" end", b"\0x"])
+        else:
+            body = b"\n" * rng.randrange(0, 4) + b" \n" * rng.randrange(0, 3)
+        parts.append(body)
+        parts.append(rng.choice([b"\n", b"\r\n", b"", b"\nlast", b"\nlast\n", b"\n\n\n", b"\r"]))
+        add(fl, parts)
+    # degenerate shapes
+    for fl in (0, 5, 7):
+        add(fl, [])
+        add(fl, [(150, 0x0a), (B - 300, 0x20), (150, 0x0a)])       # (the list-based model pays O(B) per line: few lines)
+        add(fl, [(B + 1, 0x20)])
+        add(fl, [(B, 0x61)])
+        add(fl, [(B - 1, 0x61), b"\n"])
+        add(fl, [(B - 1, 0x61), b"\r", b"\n"])
+        add(fl, [(B - 2, 0x61), b"\r\n", b"b"])
+        add(fl, [(3 * B + 7, 0x61)])
+        add(fl, [(70, 0x0a), (B - 70, 0x20), (5, 0x0a), b"x"])
+    return L
 
 
 def same_answer(op, a, b):
-    if a == b:
-        return True
-    if op in ("pax", "spnew", "spold", "dfn") and a.split()[:1] == ["fail"] and b.split()[:1] == ["fail"]:
-        return True
-    return False
+    """no exemptions: failures are compared by the class of the diagnostic too (the harness reads it off stderr)"""
+    return a == b
 
 
 PARSE_PROBE_NUM = "ff00ff80007f64e0ff"      # negative base-256 number (9 digits) whose top byte stops being 0xFF: the 1.2.0 guard lets it wrap, 9ba238f refuses it
 
 
-def check_parsers(ctx, stats):
+def parse_harness(ctx):
     lib = ctx.build_lib("san")
-    exe = ctx.cc("h_c07_parse", ["h_c07_parse.c"], flags=["-I%s" % (vlib.REPO / "bin" / "gensquashfs" / "src")],
-                 libs=[str(lib)] + vlib.CODEC_LIBS + (["-lselinux"] if os.path.exists("/usr/include/selinux/selinux.h") else []))
-    # which variant of read_binary / read_pax_header does the working tree have?
-    probe = "num %%d %s 9" % PARSE_PROBE_NUM
-    impl, _ = run_harness(ctx, exe, [probe % 0], timeout=120)
-    m0, m1 = ctx.driver(["c07"], (probe % 0) + "\n" + (probe % 1) + "\n")
-    numfx = 1 if (impl and impl[0] == m1 and m0 != m1) else 0
-    uaf = "pax 0 " + tok(pax_rec(b"GNU.sparse.numbytes", b"1") + pax_rec(b"GNU.sparse.map", b"0,1") + pax_rec(b"GNU.sparse.numbytes", b"2"))
-    impl, crash = run_harness(ctx, exe, [uaf], timeout=120)
-    paxfx = 0 if crash else 1
-    if crash:
-        ctx.violation(crash_key(crash[2]) or ("pax-crash:" + vlib.sha(uaf)[:12]),
-                      "read_pax_header aborts on GNU.sparse.numbytes, GNU.sparse.map, GNU.sparse.numbytes in one extended header: %s" % san_head(crash[2]),
-                      {"unit": "parse", "line": uaf, "stderr": crash[2]})
+    return ctx.cc("h_c07_parse", ["h_c07_parse.c"], flags=["-I%s" % (vlib.REPO / "bin" / "gensquashfs" / "src")],
+                  libs=[str(lib)] + vlib.CODEC_LIBS + (["-lselinux"] if os.path.exists("/usr/include/selinux/selinux.h") else []))
+
+
+PARSE_OPS = ("num", "puint", "pint", "hex", "b64", "split", "dfn", "xdec", "pax", "spnew", "spold", "gl", "rh")
+
+
+def check_parsers(ctx, stats):
+    """The model mirrors the *current* code of the working tree and nothing else: there is no probing for older variants
+    (a revert of 9ba238f / 56b164f shows up as a disagreement resp. an ASan abort of the harness)."""
+    exe = parse_harness(ctx)
     lines = []
     cdir = vlib.CORPUS / "C07"
     if cdir.exists():
         for p in sorted(cdir.glob("parse*.txt")):
             lines += [l for l in p.read_text().splitlines() if l.strip() and not l.startswith("#")]
     ncorpus = len(lines)
-    lines += gen_parser_lines(ctx, numfx, paxfx)
-    ctx.log("parser units: %d lines (read_binary variant %d, pax variant %d)" % (len(lines), numfx, paxfx))
-    model = ctx.driver(["c07"], "\n".join(lines) + "\n", timeout=3600)
-    skipped = 0
-    if not paxfx:
-        # the shipped code would abort the harness on these (use after free, reported above): keep them out of the stream
-        keep = [i for i, m in enumerate(model) if not (lines[i].startswith("pax ") and m == "oob")]
-        skipped = len(lines) - len(keep)
-        lines = [lines[i] for i in keep]
-        model = [model[i] for i in keep]
-    impl, _m, crashes = run_chunks(ctx, exe, ["c07"], lines, jobs(ctx), want_model=False)
+    lines += gen_parser_lines(ctx)
+    per_op = {}
+    for l in lines:
+        per_op[l.split()[0]] = per_op.get(l.split()[0], 0) + 1
+    missing = [op for op in PARSE_OPS if per_op.get(op, 0) < 50]
+    infra(not missing, "parser units: the generators produced (almost) nothing for %s" % missing)
+    ctx.log("parser units: %d lines %s" % (len(lines), per_op))
+    ctx.rng.shuffle(lines)              # the expensive ops (gl, rh, pax) spread evenly over the worker chunks
+    t0 = time.time()
+    n = jobs(ctx)
+    # model and harness on the same chunks, concurrently
+    impl, model, crashes = run_chunks(ctx, exe, ["c07"], lines, n)
     for bad, rc, err in crashes[:5]:
         ctx.violation(crash_key(err) or ("parse-crash:" + vlib.sha(bad)[:12]), "parser unit aborted (rc=%s) on %s: %s" % (rc, bad[:200], san_head(err)),
                       {"unit": "parse", "line": bad, "stderr": err})
+    infra(len(lines) == len(impl) == len(model), "parser units: %d lines, %d / %d answers" % (len(lines), len(impl), len(model)))
     hist, mism, bounds = {}, [], 0
     for l, a, b in zip(lines, impl, model):
         op = l.split()[0]
-        k = "%s:%s" % (op, b.split()[0])
+        k = "%s:%s" % (op, " ".join(b.split()[:2]) if b.startswith("fail") else b.split()[0])
         hist[k] = hist.get(k, 0) + 1
         if b in ("oob", "spin"):
             bounds += 1
@@ -485,12 +802,48 @@ def check_parsers(ctx, stats):
         else:
             what = "parser unit: real code answers %r, model %r on %s" % (a, b, l[:300])
         ctx.violation("parse-corr:" + vlib.sha(l)[:12], what, {"unit": "parse", "line": l, "impl": a, "model": b}, found_input=False)
-    stats["parse"] = {"evaluations": len(lines), "corpus": ncorpus, "variant_read_binary_fixed": numfx, "variant_pax_uaf_fixed": paxfx,
-                      "uaf_sequences_kept_from_harness": skipped, "model_answer_histogram": dict(sorted(hist.items())),
+    # monitors: the specification evaluated on the real code's behaviour, independent of the model's answers
+    #  (a) get_line: the byte-at-a-time scanner `specFile` (quadratic in the line length: small inputs only)
+    def gl_small(l):
+        toks = l.split()[3:]
+        return all(t.startswith("h") for t in toks) and sum(len(t) - 1 for t in toks) <= 32        # at most 16 literal bytes, no runs
+    small_gl = [(l, a) for l, a in zip(lines, impl) if l.startswith("gl ") and gl_small(l) and not a.startswith("CRASH")]
+    infra(len(small_gl) > 1000, "no small get_line inputs for the specification monitor")
+    sp = model_lines(ctx, ["glspec" + l[2:] for l, _ in small_gl], "glspec")
+    gl_bad = [(l, a, b) for (l, a), b in zip(small_gl, sp) if a != b]
+    for l, a, b in gl_bad[:5]:
+        ctx.violation("gl-spec:" + vlib.sha(l)[:12], "istream_get_line returns %r, the byte-at-a-time specification says %r on %s" % (a, b, l),
+                      {"unit": "parse", "line": l, "impl": a, "spec": b})
+    #  (b) read_header: no allocation beyond the implementation limits (`read_header_total`), observed through ASan's malloc hook
+    rh_lines = [l for l in lines if l.startswith("rh ")]
+    mx, rcrash = run_harness(ctx, exe, ["rhmax" + l[2:] for l in rh_lines], timeout=900)
+    infra(rcrash is not None or len(mx) == len(rh_lines), "rhmax: %d answers for %d streams" % (len(mx), len(rh_lines)))
+    lim = max(tar_limits().values())
+    big_alloc = []
+    for l, a in zip(rh_lines, mx):
+        infra(a.startswith("max "), "rhmax answered %r" % a[:100])
+        if int(a.split()[1]) > lim + 64:
+            big_alloc.append((l, int(a.split()[1])))
+    infra(rcrash is not None or any(int(a.split()[1]) > lim // 2 for a in mx), "rhmax: no stream made read_header allocate anything near the limits")
+    for l, nbytes in big_alloc[:3]:
+        ctx.violation("rh-alloc:" + vlib.sha(l)[:12], "read_header allocates %d bytes at once, the implementation limits allow %d (+ a list node): %s" % (
+            nbytes, lim + 1, l[:200]), {"unit": "parse", "line": l, "impl": "max %d" % nbytes})
+    # every op must have been answered both ways (accepting and rejecting) by the model: a generator that only produces
+    # rejected inputs compares nothing
+    for op in PARSE_OPS:
+        oks = sum(v for k, v in hist.items() if k == op + ":ok")
+        infra(oks > 0, "parser units: no accepted input for op %s" % op)
+        if op != "gl":
+            infra(sum(v for k, v in hist.items() if k.startswith(op + ":fail")) > 0, "parser units: no rejected input for op %s" % op)
+    stats["parse"] = {"evaluations": len(lines), "corpus": ncorpus, "per_op": per_op, "wall_s": round(time.time() - t0, 1),
+                      "model_answer_histogram": dict(sorted(hist.items())),
                       "model_oob_or_spin_answers": bounds, "mismatches": len(mism),
+                      "get_line_inputs_judged_by_the_specification": len(small_gl), "get_line_specification_violations": len(gl_bad),
+                      "read_header_streams_with_allocation_monitor": len(rh_lines), "largest_allocation_seen": max((int(a.split()[1]) for a in mx), default=0),
+                      "allocation_limit_violations": len(big_alloc),
                       "samples": [{"line": lines[i][:200], "impl": impl[i][:200], "model": model[i][:200]} for i in (0, len(lines) // 2, len(lines) - 1)]}
     nontriv = sum(v for k, v in hist.items() if not k.endswith(":ok"))
-    return len(lines), nontriv, len(mism) + len(crashes)
+    return len(lines) + len(small_gl) + len(rh_lines), nontriv, len(mism) + len(crashes) + len(gl_bad) + len(big_alloc)
 
 
 # ---------------------------------------------------------------------------------------------------------
@@ -518,13 +871,15 @@ def crash_key(detail):
         return TL.KEY_UB_STRHASH
     if "heap-use-after-free" in detail and "read_pax_header" in detail:
         return TL.KEY_UAF_PAX
+    if "null pointer passed as argument" in detail and "glob_files" in detail:
+        return TL.KEY_GLOB_NOPACKDIR     # glob line in a pack file read without any pack directory: strlen(NULL) / opendir(NULL)
     return None
 
 
 def classify_tar(ctx, T, job, res):
     """turn oracle failures of one tar job into (key, what) pairs"""
     out = []
-    label, data, expect = job
+    label, data, expect = job[:3]
     for clause, detail in res["bad"]:
         key = None
         if clause == "terminates":
@@ -557,7 +912,7 @@ def classify_tar(ctx, T, job, res):
             key = TL.KEY_NODIAG_TAR           # the iterator reported an error that process_tarball does not print
         if key is None and clause == "terminates":
             # not a known non-termination: believe it only if it reproduces alone with a 12x longer limit
-            again = T.run_tar(data, expect, timeout=TL.TIMEOUT * 12)
+            again = T.run_tar(data, expect, timeout=TL.TIMEOUT * 12, opts=job[3])
             if not any(c == "terminates" for c, _ in again["bad"]):
                 T.slow += 1
                 continue
@@ -586,78 +941,139 @@ def pack_to_hl(pack):
     return "hl " + " ".join(toks)
 
 
+TAR_OPTS = [["-s"], ["-x"], ["-k"], ["-e"], ["-T"], ["-s", "-x"], ["-r", "usr"], ["-r", "usr", "-S"], ["-r", "../x"], ["-E", "*a*"],
+            ["-E", "["], ["-b", "4096"], ["-c", "xz"], ["-c", "zstd", "-e", "-T"], ["-d", "uid=1,gid=2,mode=0700"]]
+
+
+def tar_limits():
+    src = (vlib.LEAN / "Sqfs" / "Generated" / "Consts.lean").read_text()
+    out = {}
+    for kind, name in (("L", "tarMaxPathLen"), ("K", "tarMaxSymlinkLen"), ("x", "tarMaxPaxLen")):
+        m = re.search(r"def %s : Nat := (\d+)" % name, src)
+        infra(m is not None, "Sqfs/Generated/Consts.lean has no %s" % name)
+        out[kind] = int(m.group(1))
+    return out
+
+
 def check_tools(ctx, stats):
     T = TL.Tools(ctx)
     rng = ctx.rng
     q = ctx.quick()
     seeds = tar_seeds()
+    infra(len(seeds) >= 20, "only %d reference archives found below %s" % (len(seeds), vlib.REPO))
     small = [(n, d) for n, d in seeds if len(d) <= 3072]
+    infra(len(small) >= 3, "no small reference archives to truncate")
     small.sort(key=lambda nd: (not any(t in nd[0] for t in ("format-acceptance/pax", "xattr/xattr-schily.tar", "long-paths/gnu")), nd[0]))
-    tjobs = []                                           # (label, data, expect_members)
+    tjobs = []                                           # (label, data, expect_members, options, must_reject)
+    def tjob(label, data, expect=None, opts=(), must_reject=None):
+        tjobs.append((label, data, expect, tuple(opts), must_reject))
     cdir = vlib.CORPUS / "C07"
     if cdir.exists():
         for p in sorted(cdir.glob("*.tar*")):
             markers = [b"after%d" % i for i in range(12)] if p.name.startswith("d22_") else None
-            tjobs.append(("corpus/" + p.name, p.read_bytes(), markers))
+            tjob("corpus/" + p.name, p.read_bytes(), markers)
     for n, d in seeds:
-        tjobs.append(("seed:" + n, d, None))
+        tjob("seed:" + n, d)
     # hard-link graphs as archives (D12 at tool level)
     for _ in range(10 if q else 60):
         k = rng.randint(1, 5)
         names = [b"h%d" % i for i in range(k)]
         pairs = [(nm, rng.choice(names + [b"f0", b"f0", b"missing", b"f0/x", b"."])) for nm in names]
-        if q:   # keep the number of (known) spinning archives small in the quick tier: mostly chains
-            pairs = [(nm, rng.choice(names[:i] + [b"f0", b"missing"]) if rng.random() < 0.8 else t) for i, (nm, t) in enumerate(pairs)]
-        tjobs.append(("hl:random", TL.tar_hardlinks(pairs, [b"f0"]), None))
+        tjob("hl:random", TL.tar_hardlinks(pairs, [b"f0"]))
     # inconsistent sparse maps (D22) with marker members
     for _ in range(12 if q else 200):
         data, markers = TL.tar_sparse_inconsistent(rng)
-        tjobs.append(("sparse:inconsistent", data, markers))
-    # structure-aware mutations of every dialect
+        tjob("sparse:inconsistent", data, markers)
+    # extension records around TAR_MAX_PATH_LEN / _SYMLINK_LEN / _PAX_LEN with all their data present
+    limits = tar_limits()
+    gates = [TL.tar_size_gate(rng, limits, kind, delta) for kind in "LKx" for delta in (-1, 0, 1)]
+    gates += [TL.tar_size_gate(rng, limits) for _ in range(15 if q else 300)]
+    for data, rej in gates:
+        tjob("gate:" + ("over" if rej else "within"), data, None, (), "extension record larger than the implementation limit" if rej else None)
+    # names nested around / far beyond SQFS_MAX_DIR_NESTING (recursion in the tree post-processing and the writers)
+    limit = max_dir_nesting()
+    for n in ([limit - 1, limit, limit + 1, limit + 2, 3 * limit, 30000] if q else
+              [limit - 1, limit, limit + 1, limit + 2, 2 * limit, 3 * limit, 10000, 20000, 30000, 32768]):
+        for kind in "df":
+            tjob("deep:%d%s" % (n, kind), TL.tar_deep(rng, n, kind))
+    # structure-aware mutations of every dialect, a third of them with non-default options
     for _ in range(900 if q else 8000):
         n, d = rng.choice(seeds)
         m = TL.mutate_tar(rng, d)
         for _ in range(rng.choice([0, 0, 0, 1, 2])):
             m = TL.mutate_tar(rng, m)
-        tjobs.append(("mut:" + n, m, None))
+        tjob("mut:" + n, m, None, rng.choice(TAR_OPTS) if rng.random() < 0.33 else ())
     # truncation of small archives
     for idx, (n, d) in enumerate(small[:3] if q else small):
         step = 37 if q else (1 if idx < 4 else 16)      # thorough: every offset of four archives (pax, xattr, gnu long path, …)
         for cut in sorted(set(list(range(0, len(d), step)) + [511, 512, 513, 1023, 1024, 1025, len(d) - 1])):
             if cut < len(d):
-                tjobs.append(("trunc:%s@%d" % (n, cut), d[:cut], None))
-    # compressed streams, corrupted (the gzip hang is a known finding owned by C15: few of those in the quick tier)
+                tjob("trunc:%s@%d" % (n, cut), d[:cut], None, ["-s"] if rng.random() < 0.2 else ())
+    # compressed streams, corrupted
     base = dict(seeds)["bin/tar2sqfs/test/simple.tar"]
     for codec, cd in TL.compress_variants(base).items():
-        tjobs.append(("z:%s:intact" % codec, cd, None))
-        ncor = (1 if codec == "gz" else 25) if q else (24 if codec == "gz" else 400)
+        tjob("z:%s:intact" % codec, cd)
+        ncor = 25 if q else 400
         for _ in range(ncor):
-            tjobs.append(("z:%s:corrupt" % codec, TL.corrupt_stream(rng, cd), None))
+            tjob("z:%s:corrupt" % codec, TL.corrupt_stream(rng, cd))
 
-    gjobs = []                                           # (label, pack, sort, xattr)
-    gjobs.append(("seed", TL.PACK_SEED, TL.SORT_SEED, TL.XATTR_SEED))
+    gjobs = []                                           # (label, pack, sort, xattr, mode, must_accept)
+    def gjob(label, pack, sort=None, xattr=None, mode="D", must_accept=None):
+        gjobs.append((label, pack, sort, xattr, mode, must_accept))
+    gjob("seed", TL.PACK_SEED, TL.SORT_SEED, TL.XATTR_SEED, "D", ["etc/passwd", "gl/a.txt"])
     for p in sorted(cdir.glob("*.txt")) if cdir.exists() else []:
         txt = p.read_bytes().decode("latin-1")
-        if p.name.startswith("pack"):
-            gjobs.append(("corpus/" + p.name, txt, None, None))
+        if p.name.startswith("nodir_pack"):
+            gjob("corpus/" + p.name, txt, mode="nodir")
+        elif p.name.startswith("pack"):
+            gjob("corpus/" + p.name, txt)
         elif p.name.endswith("_xattr.txt"):
-            gjobs.append(("corpus/" + p.name, TL.PACK_SEED, None, txt))
+            gjob("corpus/" + p.name, TL.PACK_SEED, None, txt)
         elif p.name.endswith("_sort.txt"):
-            gjobs.append(("corpus/" + p.name, TL.PACK_SEED, txt, None))
+            gjob("corpus/" + p.name, TL.PACK_SEED, txt, None)
+    # every keyword x every way of (not) having a pack directory x with / without its optional location
+    for label, text, mode in TL.pack_keyword_matrix():
+        gjob(label, text, mode=mode)
+    for mode in TL.GEN_MODES + ("dironly",):
+        gjob("seed:" + mode, TL.PACK_SEED, TL.SORT_SEED, TL.XATTR_SEED, mode)
+        gjob("seed-sort:" + mode, TL.PACK_SEED, TL.SORT_SEED, None, mode)
+        gjob("seed-xattr:" + mode, TL.PACK_SEED, None, TL.XATTR_SEED, mode)
+    # a real directory with a few hundred entries through every glob option
+    for extra in ("", "-type f", "-type d", "-type l -type p", "-name \"*.txt\"", "-path \"*d1/*\"", "-nonrecursive", "-xdev -keeptime",
+                  "-name \"[\"", "-name \"" + "*" * 60 + "x\"", "-type f -name \"f0?[0-5]*\" --"):
+        gjob("glob:many", "glob /m 0755 0 0 %s many\n" % extra, must_accept=[] if "[" not in extra else None)
+        gjob("glob:links", "glob /l 0755 0 0 %s links\n" % extra)
+    gjob("glob:links", "glob / 0755 0 0 links\n")
+    gjob("glob:links", "glob /l 0755 0 0 -nohardlinks links\n", must_accept=["l/two"])
     for _ in range(350 if q else 3000):
-        gjobs.append(("mut:pack", TL.mutate_text(rng, TL.PACK_SEED), None, None))
+        gjob("mut:pack", TL.mutate_text(rng, TL.PACK_SEED), mode=rng.choice(["D"] * 6 + ["nodir", "slashdir", "D-rel"]))
     for _ in range(200 if q else 1500):
-        gjobs.append(("mut:sort", TL.PACK_SEED, TL.mutate_text(rng, TL.SORT_SEED), None))
+        gjob("mut:sort", TL.PACK_SEED, TL.mutate_text(rng, TL.SORT_SEED), None, rng.choice(["D"] * 6 + ["nodir", "dironly"]))
     for _ in range(200 if q else 1500):
-        gjobs.append(("mut:xattr", TL.PACK_SEED, None, TL.mutate_text(rng, TL.XATTR_SEED)))
+        gjob("mut:xattr", TL.PACK_SEED, None, TL.mutate_text(rng, TL.XATTR_SEED), rng.choice(["D"] * 6 + ["nodir", "dironly"]))
     for _ in range(60 if q else 600):
-        gjobs.append(("hl:pack", TL.pack_hardlink_graph(rng), None, None))
+        gjob("hl:pack", TL.pack_hardlink_graph(rng))
+    # valid inputs larger than the istream buffer: the line at the boundary must come through unharmed
+    B = istream_bufsz()
+    for _ in range(9 if q else 90):
+        for kind in ("pack", "sort", "xattr"):
+            text, want = TL.big_text(rng, kind, B)
+            if kind == "pack":
+                gjob("big:pack", text, None, None, "D", want)
+            elif kind == "sort":
+                gjob("big:sort", TL.PACK_SEED, text, None, "D", want)
+            else:
+                gjob("big:xattr", TL.PACK_SEED, None, text, "D", want)
+    for n in (limit - 1, limit, limit + 1, 3 * limit, 30000):
+        gjob("deep:%d" % n, TL.pack_deep(n, "dir"))
+        gjob("deep:%df" % n, TL.pack_deep(n, "file"))
 
     t0 = time.time()
     ctx.log("tool level: %d tar jobs, %d gensquashfs jobs, %d workers" % (len(tjobs), len(gjobs), jobs(ctx)))
     with ThreadPoolExecutor(max_workers=jobs(ctx)) as ex:
-        tres = list(ex.map(lambda j: T.run_tar(j[1], j[2]), tjobs))
-        gres = list(ex.map(lambda j: T.run_gen(j[1], j[2], j[3]), gjobs))
+        tres = list(ex.map(lambda j: T.run_tar(j[1], j[2], opts=j[3], must_reject=j[4]), tjobs))
+        gres = list(ex.map(lambda j: T.run_gen(j[1], j[2], j[3], mode=j[4], must_accept=j[5]), gjobs))
+    infra(len(tres) == len(tjobs) and len(gres) == len(gjobs), "tool level: results missing")
     hist, shown = {}, {}
     nviol = 0
     for job, res in zip(tjobs, tres):
@@ -670,10 +1086,12 @@ def check_tools(ctx, stats):
             shown[fam] = shown.get(fam, 0) + 1
             if shown[fam] <= 3:
                 ctx.violation(key, what, {"unit": "tool-tar", "label": job[0], "data_b64": base64.b64encode(job[1]).decode(),
-                                          "expect_members": [m.decode() for m in job[2]] if job[2] else None})
+                                          "expect_members": [m.decode() for m in job[2]] if job[2] else None,
+                                          "opts": list(job[3]), "must_reject": job[4]})
     for job, res in zip(gjobs, gres):
         outcome = "exit %s" % (res["rc"] if res["rc"] in (0, "timeout") else "!=0")
-        hist["gen %s → %s" % (job[0].split("/")[0], outcome)] = hist.get("gen %s → %s" % (job[0].split("/")[0], outcome), 0) + 1
+        gcls = job[0].split("/")[0].split(":")[0] + ("[%s]" % job[4] if job[4] != "D" else "")
+        hist["gen %s → %s" % (gcls, outcome)] = hist.get("gen %s → %s" % (gcls, outcome), 0) + 1
         for clause, detail in res["bad"]:
             key = None
             if clause == "terminates":
@@ -682,26 +1100,28 @@ def check_tools(ctx, stats):
                     key = KEY_D12
             if clause == "no-crash":
                 key = crash_key(detail)
-            if clause == "failure-diagnostic" and job[3] is not None and T.run_gen(job[1], job[2], None)["rc"] == 0:
+            if clause == "failure-diagnostic" and job[3] is not None and T.run_gen(job[1], job[2], None, mode=job[4])["rc"] == 0:
                 key = TL.KEY_NODIAG_XATTR     # fails only with the xattr map file, silently: apply_dfs drops the error
-            if clause == "failure-diagnostic" and job[2] is not None and T.run_gen(job[1], None, job[3])["rc"] == 0 \
+            if clause == "failure-diagnostic" and job[2] is not None and T.run_gen(job[1], None, job[3], mode=job[4])["rc"] == 0 \
                     and any(SORT_TRAILING.match(l.strip()) for l in job[2].replace("\r", "").splitlines()):
                 key = TL.KEY_NODIAG_SORT      # quoted file name followed by more characters: decode_filename returns -1 silently
             if key is None and clause == "terminates":
-                again = T.run_gen(job[1], job[2], job[3], timeout=TL.TIMEOUT * 12)
+                again = T.run_gen(job[1], job[2], job[3], timeout=TL.TIMEOUT * 12, mode=job[4])
                 if not any(c == "terminates" for c, _ in again["bad"]):
                     T.slow += 1
                     continue
             if key is None:
-                key = "tool-gen:%s:%s" % (clause, vlib.sha(repr(job[1:]))[:12])
+                key = "tool-gen:%s:%s" % (clause, vlib.sha(repr(job[1:5]))[:12])
             nviol += 1
             fam = "tool-gen:" + clause if key.startswith("tool-gen") else key
             shown[fam] = shown.get(fam, 0) + 1
             if shown[fam] <= 3:
                 ctx.violation(key, "%s [%s]: %s" % (clause, job[0], san_head(detail) if clause == "no-crash" else detail),
-                              {"unit": "tool-gen", "label": job[0], "pack": job[1], "sort": job[2], "xattr": job[3]})
+                              {"unit": "tool-gen", "label": job[0], "pack": job[1], "sort": job[2], "xattr": job[3], "mode": job[4],
+                               "must_accept": job[5]})
     stats["tools"] = {"tar_jobs": len(tjobs), "gensquashfs_jobs": len(gjobs), "timeout_s": TL.TIMEOUT, "wall_s": round(time.time() - t0, 1),
                       "outcome_histogram": dict(sorted(hist.items())), "oracle_failures": nviol, "timeouts_not_reproduced_in_isolation": T.slow,
+                      "listing_refused_for_line_feed_then_validated_independently": T.lf_refusals,
                       "samples": [{"label": tjobs[i][0], "tar2sqfs_exit": tres[i]["rc"], "stderr": tres[i].get("stderr", "")[-120:]}
                                   for i in (0, len(tjobs) // 3, len(tjobs) // 2, len(tjobs) - 1)]}
     nontriv = sum(1 for r in tres if r["rc"] not in (0, None)) + sum(1 for r in gres if r["rc"] != 0)
@@ -754,26 +1174,25 @@ def replay(ctx, path):
         print("impl  :", impl, "crash:", crash)
         print("model :", model)
         print("spec  :", spec)
-        bad = hl_spec_verdict(rp["line"], impl[0], spec[0]) if impl else ["crash"]
+        # (graphs with a preset link count are judged by the model comparison only: the classifier does not know the counts)
+        bad = (hl_spec_verdict(rp["line"], impl[0], spec[0]) if " c:" not in rp["line"] else []) if impl else ["crash"]
         print("clauses violated:", bad)
         return 1 if crash or bad or impl != model else 0
     if rp.get("unit") == "parse" and "line" in rp:
         ctx.lean_build(["sqfsmodel"])
-        lib = ctx.build_lib("san")
-        exe = ctx.cc("h_c07_parse", ["h_c07_parse.c"], flags=["-I%s" % (vlib.REPO / "bin" / "gensquashfs" / "src")],
-                     libs=[str(lib)] + vlib.CODEC_LIBS + (["-lselinux"] if os.path.exists("/usr/include/selinux/selinux.h") else []))
+        exe = parse_harness(ctx)
         impl, crash = run_harness(ctx, exe, [rp["line"]], timeout=120)
         model = ctx.driver(["c07"], rp["line"] + "\n")
         print("line  :", rp["line"][:400])
         print("impl  :", impl, "crash:", (crash[1], san_head(crash[2])) if crash else None)
         print("model :", model)
-        return 1 if crash or not impl or not same_answer(rp["line"].split()[0], impl[0], model[0]) else 0
+        return 1 if crash or not impl or not model or not same_answer(rp["line"].split()[0], impl[0], model[0]) else 0
     if rp.get("unit") == "tool-tar" and "data_b64" in rp:
         ctx.lean_build(["sqfsmodel"])
         T = TL.Tools(ctx)
         data = base64.b64decode(rp["data_b64"])
         expect = [m.encode() for m in rp["expect_members"]] if rp.get("expect_members") else None
-        res = T.run_tar(data, expect, timeout=TL.TIMEOUT * 3)
+        res = T.run_tar(data, expect, timeout=TL.TIMEOUT * 3, opts=rp.get("opts") or (), must_reject=rp.get("must_reject"))
         print("label :", rp.get("label"), "bytes:", len(data))
         print("lister:", res.get("list_rc"), (res.get("listing") or [])[-3:])
         print("tar2sqfs exit:", res.get("rc"), "stderr:", res.get("stderr", "")[-300:])
@@ -782,7 +1201,8 @@ def replay(ctx, path):
         return 1 if res["bad"] else 0
     if rp.get("unit") == "tool-gen":
         T = TL.Tools(ctx)
-        res = T.run_gen(rp.get("pack"), rp.get("sort"), rp.get("xattr"), timeout=TL.TIMEOUT * 3)
+        res = T.run_gen(rp.get("pack"), rp.get("sort"), rp.get("xattr"), timeout=TL.TIMEOUT * 3, mode=rp.get("mode") or "D",
+                        must_accept=rp.get("must_accept"))
         print("label :", rp.get("label"))
         print("gensquashfs exit:", res["rc"], "stderr:", res["stderr"][-300:])
         for clause, detail in res["bad"]:
